@@ -169,6 +169,23 @@ def run(prog, tier):
     ok2 = (len(advs) == 1 and U(ra.term(advs[0][0].func.value, advs[0][1])) == f"{arg}[1]" and len(advs[0][0].args) == 1
            and U(ra.term(advs[0][0].args[0], advs[0][1])) == f"{arg}[0]" and len(rets_) == 1 and U(rets_[0]) == f"{arg}[1]")
     body = [U(s_) for s_ in af.body]
+    # the worker advances the chain it was handed and nothing else: no attribute of the chain is set there (a fresh generator, a
+    # reset counter) - "the same state as the same chains advanced one after another"
+    sets_ = []
+    for st_ in ast.walk(af):
+        tg_ = st_.targets if isinstance(st_, ast.Assign) else [st_.target] if isinstance(st_, (ast.AugAssign, ast.AnnAssign)) else []
+        for t_ in tg_:
+            for el_ in (t_.elts if isinstance(t_, ast.Tuple) else [t_]):
+                b_ = el_
+                while isinstance(b_, ast.Subscript):
+                    b_ = b_.value
+                if isinstance(b_, ast.Attribute):
+                    sets_.append(f"line {st_.lineno}: `{U(st_)[:70]}`")
+        if isinstance(st_, ast.Expr) and isinstance(st_.value, ast.Call) and U(st_.value.func) == "setattr":
+            sets_.append(f"line {st_.lineno}: `{U(st_)[:70]}`")
+    if sets_:
+        ok2 = False
+        body = body + ["attribute set in the worker: " + sets_[0]]
     obs.append(struct_ob("pool-order", qual(c, padv), ok and ok2,
                          f"the pool must map (ordered) over (n, chain) pairs in chain order and store the returned chains back: "
                          f"{why}; adv_func body {body}", c.module.relpath, padv.lineno))
@@ -309,6 +326,17 @@ def _trip(prog, c, fn, weight, param, what, want=None):
     want = want if want is not None else R.sym(param)
     bad = []
     forms = []
+    # a counted call inside a `try` whose handler does not re-raise: a failed call is counted but adds nothing
+    for tr_ in ast.walk(fn):
+        if isinstance(tr_, ast.Try) and any(not any(isinstance(x, ast.Raise) for x in ast.walk(h_)) for h_ in tr_.handlers):
+            for cl_ in [x for b_ in tr_.body for x in ast.walk(b_) if isinstance(x, ast.Call)]:
+                try:
+                    w_c = weight(cl_, ex, dict(env))
+                except Exception:
+                    w_c = None
+                if w_c is not None:
+                    return Ob_trip(c, fn, False, f"`{U(cl_)[:60]}` (line {cl_.lineno}) runs inside a try whose handler swallows the exception: a "
+                                                 f"step that fails is counted as taken, and fewer samples are added than requested", forms, what)
     def zero_request(guards):
         """the guards of the path say that the request is 0 (requests are whole numbers >= 0)"""
         if param is None:
@@ -321,7 +349,7 @@ def _trip(prog, c, fn, weight, param, what, want=None):
                 return True
         return False
     for a in alts:
-        tot = trip.apply_div_relations(a.total, a.guards)
+        tot = trip.apply_div_relations(a.total, a.guards, ex, a.env)
         w_ = want
         if zero_request(a.guards):
             z_ = {("sym", param): R.const(0)}
@@ -330,7 +358,7 @@ def _trip(prog, c, fn, weight, param, what, want=None):
         if not tot.eq(w_):
             # a counter known to be zero on this path (`if remaining != 0:` not taken): the totals may differ by a multiple of it
             zs = [z for z in a.env.get("__zero__", []) if isinstance(z, R)]
-            if any(not z.is_zero() and anf.proportional(trip.apply_div_relations(tot - w_, a.guards), trip.apply_div_relations(z, a.guards)) is not None
+            if any(not z.is_zero() and anf.proportional(trip.apply_div_relations(tot - w_, a.guards, ex, a.env), trip.apply_div_relations(z, a.guards, ex, a.env)) is not None
                    for z in zs):
                 continue
             bad.append((a, tot))
@@ -451,6 +479,12 @@ def _progress(c, fn, step_callee):
                 d_ = anf.diff(dv, ("sym", p_))
                 if not d_.eq(R.const(units[p_])):
                     problems.append(f"the deadline `{U(term)[:80]}` grows by {d_} seconds per unit of `{p_}`, not by {units[p_]}")
+            want_dl = R.sym("t_start")
+            for p_ in tp:
+                want_dl = want_dl + R.const(units[p_]) * R.sym(p_)
+            if not problems and not dv.eq(want_dl):
+                problems.append(f"the deadline is `{dv}`, not the start of the run plus the requested time ({want_dl}): the run stops "
+                                f"{dv - want_dl} seconds away from where the budget ends")
         except Unsupported as e:
             raise AnalysisError(f"run_for: deadline `{U(term)[:80]}` outside the algebra ({e})")
     return struct_ob("run_for.progress", qual(c, fn), not problems, "; ".join(problems), rel, w.lineno,
